@@ -149,10 +149,14 @@ const (
 	oAbort // ⊤ reached a branch, or unsupported statement
 	oBreak
 	oContinue
+	oLabelled // break/continue with a label, travelling outwards to the labelled loop
 )
 
 type oFrame struct {
-	defers  []func()
+	curLabel     string
+	pendingLabel string
+	pendingTok   token.Token
+	defers       []func()
 	it      *oInterp
 	info    *types.Info
 	env     *oEnv
@@ -360,13 +364,22 @@ func (fr *oFrame) stmt(s ast.Stmt) oCtl {
 			case token.CONTINUE:
 				return oContinue
 			}
+		} else if s.Tok == token.BREAK || s.Tok == token.CONTINUE {
+			fr.pendingLabel, fr.pendingTok = s.Label.Name, s.Tok
+			return oLabelled
 		}
 		return fr.abort("unsupported branch statement at %s", fr.it.p.Position(s.Pos()))
 	case *ast.LabeledStmt:
-		return fr.abort("labelled statement at %s", fr.it.p.Position(s.Pos()))
+		// a labelled loop: the loop directly under the label handles break/continue addressed to it
+		fr.curLabel = s.Label.Name
+		c := fr.stmt(s.Stmt)
+		fr.curLabel = ""
+		return c
 	case *ast.ForStmt:
 		// bounded unrolling: only loops that terminate within a few abstract
 		// iterations are inside the fragment (e.g. the "nudge until different" loop)
+		myLabel := fr.curLabel
+		fr.curLabel = ""
 		saved := fr.env
 		fr.env = &oEnv{vars: map[types.Object]*oval{}, parent: saved}
 		defer func() { fr.env = saved }()
@@ -391,6 +404,11 @@ func (fr *oFrame) stmt(s ast.Stmt) oCtl {
 			}
 			if c := fr.stmt(s.Body); c == oBreak {
 				return oNormal
+			} else if c == oLabelled && myLabel != "" && fr.pendingLabel == myLabel {
+				fr.pendingLabel = ""
+				if fr.pendingTok == token.BREAK {
+					return oNormal
+				}
 			} else if c != oNormal && c != oContinue {
 				return c
 			}
@@ -1472,3 +1490,4 @@ func (fr *oFrame) runDefers() {
 	}
 	fr.defers = nil
 }
+
